@@ -1156,6 +1156,9 @@ def H_current_culture():
 # queries in two threads with EVERY line of EVERY pyoda_time file as a scheduling point; the answers must equal the
 # answers computed sequentially on fresh objects.  This is what catches an unsynchronised memo added anywhere.
 
+_WARM_SIZES = (255, 256, 511, 512, 1022, 1023, 1024, 2047, 2048)
+
+
 def _generic_catalogue():
     from pyoda_time import IsoDayOfWeek, LocalDateTime, LocalTime, OffsetDateTime, Period, PeriodUnits
     from pyoda_time import DateInterval
@@ -1173,6 +1176,15 @@ def _generic_catalogue():
           lambda r: (r.get_week_year(d1), r.get_week_of_week_year(d1)), lambda r: (r.get_week_year(d2), r.get_week_of_week_year(d2), r.get_weeks_in_week_year(2020)), repr)
     entry("weekyear-rule-regular", lambda: WeekYearRules.for_min_days_in_first_week(1, IsoDayOfWeek.SUNDAY), None,
           lambda r: r.get_local_date(2021, 1, IsoDayOfWeek.MONDAY).day, lambda r: (r.get_week_year(d1.with_calendar(hc)), r.get_week_of_week_year(d2)), repr)
+    # a rule object that has already answered N distinct week-years (N around powers of two: any bounded memo such an object
+    # might carry is then exactly at / just below / just above capacity): thread A asks remembered years, thread B a new one
+    for n_warm in _WARM_SIZES:
+        def _warm_rule(r, n_warm=n_warm):
+            for y in range(1000, 1000 + n_warm):
+                r.get_weeks_in_week_year(y)
+        entry("weekyear-rule-after-%d" % n_warm, lambda: WeekYearRules.for_min_days_in_first_week(4, IsoDayOfWeek.MONDAY), _warm_rule,
+              lambda r: (r.get_weeks_in_week_year(1005), r.get_week_year(LocalDate(1010, 6, 1)), r.get_week_of_week_year(LocalDate(1003, 12, 31))),
+              lambda r: (r.get_weeks_in_week_year(5000), r.get_week_year(LocalDate(5003, 1, 1))), repr)
     o1 = OffsetDateTime(LocalDateTime(2024, 3, 10, 1, 2, 3), Offset.from_hours(2))
     o2 = OffsetDateTime(LocalDateTime(2024, 3, 10, 22, 0, 0), Offset.from_hours(-5))
     o0 = OffsetDateTime(LocalDateTime(1999, 12, 31, 23, 59, 59), Offset.zero)
@@ -1227,6 +1239,7 @@ def _generic_catalogue():
 
 
 _GENERIC_FILES = {
+    **{"weekyear-rule-after-%d" % n: ("_simple_week_year_rule.py", "_week_year_rules.py") for n in _WARM_SIZES},
     "weekyear-rule": ("_simple_week_year_rule.py", "_week_year_rules.py"),
     "weekyear-rule-regular": ("_simple_week_year_rule.py", "_week_year_rules.py"),
     "odt-with-calendar": ("_offset_date_time.py", "_offset_time.py"),
@@ -1332,6 +1345,8 @@ def _harness_table(tier):
         hs.append(("H20-generic:%s" % g, lambda g=g: H_generic(g)))
         if tier != "quick":
             hs.append(("H21-generic-whole-library:%s" % g, lambda g=g: H_generic(g, True)))
+    for n_warm in ((1023, 1024) if tier == "quick" else _WARM_SIZES):
+        hs.append(("H20-generic:weekyear-rule-after-%d" % n_warm, lambda n_warm=n_warm: H_generic("weekyear-rule-after-%d" % n_warm)))
     hs.append(("H9-pattern-cache", H_pattern_cache))
     hs.append(("H9-pattern-cache-after-600", H_pattern_cache_full))
     hs.append(("H10-current-culture", H_current_culture))
